@@ -143,7 +143,16 @@ def make_builtins(ex):
     @reg("dict")
     def _dict(ex, st, args, kwargs, node):
         if args:
-            raise Unsupported("dict(x)")
+            x = args[0]
+            if isinstance(x, VarsView):
+                d = dict(st.heap[x.ref.oid].fields)
+            elif isinstance(x, Ref) and isinstance(st.heap[x.oid], DictP):
+                d = dict(st.heap[x.oid].items)
+            else:
+                raise Unsupported("dict(x)")
+            d.update(kwargs)
+            yield st, st.alloc(DictP(d))
+            return
         yield st, st.alloc(DictP(dict(kwargs)))
 
     @reg("set")
@@ -225,7 +234,11 @@ def make_builtins(ex):
 
     @reg("str")
     def _str(ex, st, args, kwargs, node):
-        yield st, mkstr([ex.format_piece(args[0], st)])
+        try:
+            yield st, mkstr([ex.format_piece(args[0], st)])
+        except Unsupported:
+            # the text of an arbitrary object: an opaque string (only its being a str matters)
+            yield st, Tmpl((Atom(fresh_name("str"), "str"),))
 
     @reg("round")
     def _round(ex, st, args, kwargs, node):
@@ -258,6 +271,13 @@ def make_builtins(ex):
     def _getattr(ex, st, args, kwargs, node):
         obj, name = args[0], args[1]
         has_default = len(args) > 2
+        if isinstance(obj, Ref) and type(st.heap[obj.oid]).__name__ == "SymCandleP":
+            from .symdict import SKey, attrval
+
+            if not isinstance(name, SKey) or not has_default or args[2] is not None:
+                raise Unsupported("getattr on symbolic candle")
+            yield st, vals.from_V_term(attrval(st.heap[obj.oid].cid, name.t))
+            return
         if isinstance(obj, CandleAt):
             if isinstance(name, str):
                 from .series import CANDLE_ATTRS
@@ -375,6 +395,27 @@ def call_ext(ex, fv, args, kwargs, st, node):
 
         yield st, model_copy(ex, st, args[0], deep=n.endswith("deepcopy"))
         return
+    if n in ("datetime.timedelta",):
+        from .timevals import TimeDeltaV
+
+        mult = {"seconds": 1, "minutes": 60, "hours": 3600, "days": 86400}
+        tot = z3.IntVal(0)
+        if args:
+            kwargs = dict(kwargs, days=args[0])
+        for k, v in kwargs.items():
+            if k not in mult:
+                raise Unsupported(f"timedelta({k}=...)")
+            tot = tot + mult[k] * to_int_term(v)
+        yield st, TimeDeltaV(z3.simplify(tot))
+        return
+    if n in ("datetime.datetime",):
+        from .timevals import DateTimeV
+
+        # datetime(1970, 1, 1[, tzinfo=...]) : the epoch of the naive wall-clock axis
+        if [a for a in args] == [1970, 1, 1]:
+            yield st, DateTimeV(0, 0, kwargs.get("tzinfo"))
+            return
+        raise Unsupported("datetime(...) other than the epoch")
     if n.startswith("hexital.exceptions."):
         yield st, None
         return
@@ -511,6 +552,11 @@ def method_of(ex, obj, p, name):
                 yield st, vals.from_V_term(old)
             return mk(f)
     if isinstance(p, VarsView):
+        if name == "get":
+            def f(ex, st, args, kwargs, node):
+                o = st.heap[p.ref.oid]
+                yield st, o.fields.get(args[0], args[1] if len(args) > 1 else None)
+            return mk(f)
         if name == "items":
             def f(ex, st, args, kwargs, node):
                 from .iteration import Space
